@@ -411,6 +411,11 @@ def run_impl(case):
 # ---------------------------------------------------------------- generators
 NAMES = ['a', 'b', 'c', 'k0']
 INTS = [0, 1, 2, 3, 5, 7, -1, -3, -7, 10, 12, 255, -256, 1000]
+FLOATS = [0.0, -0.0, 0.5, 1.5, -2.5, 2.0, 3.0, -1.0, 0.1, 4.0, -8.0, 1e-300, 1e308, 2.0 ** 60]
+ZEROS = [0, False, 0.0, -0.0]                       # zero divisors / zero bases, of every numeric type
+NEGS = [-1, -2, -3, -7, -0.5, -1.0, -2.5]           # negative exponents
+HUGE = [10 ** 400, -(10 ** 400), 2 ** 1024, 10 ** 310]      # ints beyond the range of a double
+BIGEXP = [10000, 5000, 10 ** 6, 1e10]               # exponents that take |x| > 1 beyond the range of a double
 STRS = ['abc', 'x', '', 'a.b', 'hello world', "it's", 'a"b', 'back\\slash', 'aaa']
 
 
@@ -428,6 +433,8 @@ def gen_scalar(r):
         return r.choice([True, False])
     if p < 0.88:
         return None
+    if p < 0.93:
+        return r.choice(FLOATS)
     return r.choice([10 ** 12, -(2 ** 40), 2 ** 70])
 
 
@@ -457,6 +464,11 @@ def gen_target(r):
     root['n'] = r.choice(INTS)
     root['m'] = r.choice(INTS + [0, 0])
     root['s'] = r.choice(STRS)
+    root['x'] = r.choice(FLOATS)                    # a float
+    root['z'] = r.choice(ZEROS)                     # a zero of some numeric type
+    root['e'] = r.choice(NEGS + [True, 2, 0.5])     # an exponent, mostly negative
+    if r.random() < 0.3:
+        root['h'] = r.choice(HUGE + BIGEXP)
     root['l'] = [gen_scalar(r) for _ in range(r.choice([0, 1, 3, 4]))]
     root['t'] = tuple(r.choice(INTS) for _ in range(r.choice([0, 2, 3])))
     root['o'] = pyobjs.Obj(a=gen_value(r, 2), b=r.choice(INTS), f=FUNCS[r.choice(list(FUNCS))])
@@ -468,7 +480,7 @@ def gen_target(r):
     if p < 0.3:
         return pyobjs.Obj(**{k: v for k, v in root.items()})
     if p < 0.4:
-        return [root['n'], root['s'], root['l'], root['d']]
+        return [root['n'], root['s'], root['l'], root['d'], root['x'], root['z'], root['e']]
     return root
 
 
@@ -499,6 +511,14 @@ def is_int(v):
 
 def is_intnb(v):
     return isinstance(v, int) and not isinstance(v, bool)
+
+
+def is_num(v):
+    return isinstance(v, (int, float))
+
+
+def is_finite(v):
+    return isinstance(v, int) or (isinstance(v, float) and v == v and abs(v) != float('inf'))
 
 
 class Gen:
@@ -567,11 +587,11 @@ class Gen:
                 opts += ['idx'] * 2
             opts += ['slice', 'stradd', 'smul', 'upper', 'strcount', 'startswith']
         elif isinstance(cur, bool):
-            opts += ['arith'] * 3 + ['bit'] * 3 + ['unary']
+            opts += ['arith'] * 3 + ['bit'] * 3 + ['unary'] + ['npow', 'ifloat']
         elif isinstance(cur, int):
-            opts += ['arith'] * 6 + ['bit'] * 2 + ['unary'] * 2 + ['pow']
+            opts += ['arith'] * 6 + ['bit'] * 2 + ['unary'] * 2 + ['pow'] + ['npow', 'ifloat']
         elif isinstance(cur, float):
-            opts += ['farith'] * 3 + ['fneg']
+            opts += ['farith'] * 3 + ['fneg'] + ['ffloor', 'fpow']
         elif type(cur) in (pyobjs.Obj, pyobjs.Obj2):
             opts += ['attr']
         elif id(cur) in FUNC_NAME:
@@ -646,10 +666,39 @@ class Gen:
             return ['__pow__', self.arg(lambda v: is_int(v) and 0 <= v <= 4, r.choice([0, 1, 2, 3, 4]))]
         if o == 'farith':
             d = r.choice(['__add__', '__sub__', '__mul__', '__truediv__'])
-            v = r.choice([x for x in INTS if x != 0])
-            return [d, self.arg(lambda v: is_intnb(v) and v != 0 and abs(v) < 10 ** 6, v)]
+            v = r.choice([x for x in INTS if x != 0] + [1.5, 0.5, -2.5, 0.1])
+            return [d, self.arg(lambda v: is_num(v) and not isinstance(v, bool) and is_finite(v)
+                                and v != 0 and abs(v) < 10 ** 6, v)]
         if o == 'fneg':
             return ['__neg__', lit(None)]
+        if o == 'npow':
+            # int ** negative int: a float (float(a) ** float(b)); a zero base is the failing twin
+            if cur == 0 or abs(cur) > 10 ** 6:
+                return ['__neg__', lit(None)]
+            return ['__pow__', self.arg(lambda v: is_intnb(v) and -8 <= v < 0, r.choice([-1, -2, -3]))]
+        if o == 'ifloat':
+            # int <op> float: the int is converted first
+            d = r.choice(['__add__', '__sub__', '__mul__', '__truediv__', '__floordiv__', '__mod__'])
+            if abs(cur) > 10 ** 300:
+                return ['__neg__', lit(None)]
+            return [d, self.arg(lambda v: type(v) is float and is_finite(v) and v != 0,
+                                r.choice([f for f in FLOATS if f != 0 and abs(f) < 1e100]))]
+        if o == 'ffloor':
+            # float // x, float % x (C fmod: the kernel knows the result is a float, not its value)
+            d = r.choice(['__floordiv__', '__mod__'])
+            return [d, self.arg(lambda v: is_num(v) and is_finite(v) and v != 0 and abs(v) < 10 ** 300,
+                                r.choice([2, 3, -7, 1.5, 0.5, -2.5, True]))]
+        if o == 'fpow':
+            if not is_finite(cur):
+                return ['__neg__', lit(None)]
+            if cur == 0:
+                return ['__pow__', lit(r.choice([0, 1, 2, 3, 0.5, True]))]
+            if abs(cur) > 1e30 or abs(cur) < 1e-30:
+                return ['__pow__', lit(r.choice([0, 1, -1, True]))]
+            if cur < 0:
+                return ['__pow__', self.arg(lambda v: is_intnb(v) and -4 <= v <= 4, r.choice([0, 1, 2, 3, -1, -2]))]
+            return ['__pow__', self.arg(lambda v: is_num(v) and is_finite(v) and abs(v) <= 4,
+                                        r.choice([0, 1, 2, 3, -1, -2, 0.5, -0.5, 1.5, False]))]
         if o == 'attr':
             k = r.choice(list(cur.__dict__))
             return ['__getattr__', lit(k)]
@@ -738,9 +787,117 @@ class Gen:
             return {'call': {'args': [self.arg(lambda v: type(v) is type(k) and v == k, k)], 'kwargs': []}}
         return {'call': {'args': [], 'kwargs': []}}
 
-    def bad_step(self, cur):
-        """a step that fails on `cur` (one-edit mutation)"""
+    # ------------------------------------------------------------ failing arithmetic, by error class
+    def arith_fail(self, cur, cls=None):
+        """steps ending in an arithmetic operation that FAILS, chosen by the class of error the
+        plain Python operation raises on the value reached — every class each operator can raise on
+        the modelled value types:
+          ZeroDivisionError  / // % by a zero of any numeric type (0, False, 0.0, -0.0);
+                             ** of a zero base (int, bool, float, -0.0) to a negative int / float power
+          TypeError          a right operand of a foreign type; & | ^ ~ on floats
+          OverflowError      float ** big; an int beyond the range of a double meeting a float
+                             (either side) or dividing to a quotient beyond it; int ** negative with such
+                             a base; seq * an int beyond Py_ssize_t; '%c' % big
+          ValueError         str % x with a malformed format
+        The right operand is a literal or a nested T / Spec(T) reading a suitable value of the original
+        target.  When the value reached cannot fail that way as it is, one valid step in front makes it
+        suitable (x * 0, x + 10**400, s + '%'): the failing operation is then the LAST step returned."""
         r = self.r
+        num = isinstance(cur, (int, float)) and is_finite(cur)
+        seq = type(cur) in (str, list, tuple)
+        classes = []
+        if num:
+            classes += ['zd-div'] * 3 + ['zd-pow'] * 4 + ['type'] * 2 + ['ovf-pow', 'ovf-conv', 'ovf-conv', 'ovf-cur']
+        if seq:
+            classes += ['type', 'ovf-seq', 'ovf-seq']
+        if type(cur) is str:
+            classes += ['value', 'value', 'fmt-type', 'ovf-fmt']
+        if not classes:
+            classes = ['type']
+        c = cls if cls in classes else r.choice(classes)
+        if c == 'zd-div':
+            d = r.choice(['__truediv__', '__floordiv__', '__mod__'])
+            return [[d, self.arg(lambda v: is_num(v) and v == 0, r.choice(ZEROS))]]
+        if c == 'zd-pow':
+            pre = []
+            if cur != 0:
+                # a zero of the value's own type first: x * 0 (0, 0.0, -0.0 for a negative float)
+                pre = [['__mul__', self.arg(lambda v: is_num(v) and v == 0 and not isinstance(v, float),
+                                            r.choice([0, False]))]]
+            neg = self.arg(lambda v: is_num(v) and is_finite(v) and v < 0 and abs(v) < 10 ** 6, r.choice(NEGS))
+            return pre + [['__pow__', neg]]
+        if c == 'type':
+            if isinstance(cur, float) and r.random() < 0.4:
+                if r.random() < 0.3:
+                    return [['__invert__', lit(None)]]
+                return [[r.choice(['__and__', '__or__', '__xor__']),
+                         self.arg(lambda v: is_intnb(v) and abs(v) < 100, r.choice([1, 3, 0]))]]
+            d = r.choice(['__add__', '__sub__', '__mul__', '__truediv__', '__floordiv__', '__mod__', '__pow__',
+                          '__and__', '__or__', '__xor__'])
+            bad = self.arg(lambda v: v is None or type(v) is dict, r.choice([None, {'a': 1}]))
+            if type(cur) is str and d in ('__mod__', '__mul__', '__add__'):
+                d = '__sub__'
+            if type(cur) in (list, tuple) and d in ('__mul__', '__add__'):
+                d = '__truediv__'
+            if type(cur) is dict and d == '__or__':
+                d = '__and__'
+            return [[d, bad]]
+        if c == 'ovf-pow':
+            # float ** big (|x| > 1), int ** big float
+            pre = []
+            if isinstance(cur, float) and abs(cur) > 1.0 and abs(cur) < 1e300:
+                pass
+            elif isinstance(cur, int) and abs(cur) >= 2:
+                return [['__pow__', self.arg(lambda v: type(v) is float and is_finite(v) and v >= 5000,
+                                             r.choice([1e4, 1e10]))]]
+            else:
+                pre = [['__add__', lit(r.choice([2.5, 3.0]))]] if cur >= 0 else [['__sub__', lit(2.5)]]
+                if isinstance(cur, float) and abs(cur) >= 1e300:
+                    pre = [['__truediv__', lit(1e299)], ['__add__', lit(2.5)]] if cur > 0 else \
+                          [['__truediv__', lit(1e299)], ['__sub__', lit(2.5)]]
+            big = self.arg(lambda v: is_num(v) and is_finite(v) and v >= 5000 and v == int(v)
+                           and int(v) % 2 == 0 and v < 10 ** 300, r.choice([10000, 5000, 10 ** 6, 1e10]))
+            return pre + [['__pow__', big]]
+        if c == 'ovf-conv':
+            # a float meets an int beyond the range of a double: the int is converted first
+            huge = self.arg(lambda v: is_intnb(v) and abs(v) >= 2 ** 1024, r.choice(HUGE))
+            d = r.choice(['__add__', '__sub__', '__mul__', '__truediv__', '__floordiv__', '__mod__', '__pow__'])
+            pre = [] if isinstance(cur, float) else [['__add__', lit(r.choice([0.5, 1.5]))]]
+            return pre + [[d, huge]]
+        if c == 'ovf-cur':
+            # the value reached is such an int: <huge> / 1.0, <huge> * 1.5, <huge> / 3, <huge> ** -1
+            if not isinstance(cur, int):
+                return self.arith_fail(cur, 'ovf-conv')
+            pre = [['__add__', lit(r.choice(HUGE[:2]))]]
+            q = r.random()
+            if q < 0.4:
+                last = [r.choice(['__truediv__', '__mul__', '__sub__', '__add__', '__floordiv__', '__mod__']),
+                        self.arg(lambda v: type(v) is float and is_finite(v) and v != 0 and abs(v) < 1e100,
+                                 r.choice([1.0, 1.5, 0.5, -2.5]))]
+            elif q < 0.7:
+                last = ['__truediv__', self.arg(lambda v: is_intnb(v) and 0 < abs(v) < 1000, r.choice([3, 1, -7]))]
+            else:
+                last = ['__pow__', self.arg(lambda v: is_num(v) and is_finite(v) and -8 <= v < 0, r.choice(NEGS))]
+            return pre + [last]
+        if c == 'ovf-seq':
+            return [['__mul__', self.arg(lambda v: is_intnb(v) and abs(v) >= 2 ** 64, r.choice([10 ** 30, -(10 ** 30), 2 ** 64]))]]
+        if c == 'value':
+            bad = r.choice(['%', '%q', '100%', '%(a', '% '])
+            return [['__add__', lit(bad)], ['__mod__', self.arg(lambda v: is_intnb(v) and abs(v) < 1000, r.choice([1, 7]))]]
+        if c == 'fmt-type':
+            fmt, v = r.choice([('%d %d', 1), ('%d', 'x'), ('%d', None), ('', 1), ('%(a)s', 1)])
+            return [['__add__', lit(fmt)], ['__mod__', lit(v)]]
+        if c == 'ovf-fmt':
+            return [['__add__', lit('%c')], ['__mod__', lit(r.choice([10 ** 9, -1]))]]
+        return [['__add__', lit(None)]]
+
+    def bad_step(self, cur):
+        """a step that fails on `cur` (one-edit mutation); a list of steps when a valid step in front is
+        needed to reach a value on which the last one fails (see arith_fail)"""
+        r = self.r
+        if (isinstance(cur, (int, float)) and r.random() < 0.45) or \
+                (type(cur) in (str, list, tuple) and r.random() < 0.12):
+            return self.arith_fail(cur)
         opts = ['zzattr', 'callraiser', 'nestedfail', 'unhashable']
         if type(cur) is dict:
             opts += ['zzkey'] * 3 + ['addint', 'neg', 'call0']
@@ -980,6 +1137,63 @@ def failing_nested_step(r, g):
     return [r.choice(['__getitem__', '__add__', '__mul__', '__sub__']), {'T': inner}]
 
 
+def as_steps(st):
+    """bad_step returns one step [dunder, E] or a list of steps"""
+    return [st] if st and isinstance(st[0], str) else list(st)
+
+
+ARITH_KINDS = ('add', 'sub', 'mul', 'floordiv', 'truediv', 'mod', 'pow', 'and', 'or', 'xor', 'invert', 'neg')
+
+
+def arith_failures(r):
+    """One case of the failing-arithmetic stream: an access path of a generated target to a number /
+    str / list / tuple, up to two valid arithmetic steps, then a failing arithmetic operation of a
+    chosen error class (Gen.arith_fail; literal or nested-T right operand, probability 1/2 each), then —
+    sometimes — operations that are never reached.  The case is kept only if the chain applied
+    directly in Python fails where intended (at the last step of arith_fail, in an arithmetic
+    operation); the expected outcome is always computed by Python, never assumed."""
+    for _ in range(20):
+        target = gen_target(r)
+        tj = enc(target)
+        g = Gen(r, target, nested_p=0.5)
+        starts = [(st, v) for st, v in g.src
+                  if (isinstance(v, (int, float)) and is_finite(v)) or type(v) in (str, list, tuple)]
+        nums = [(st, v) for st, v in starts if isinstance(v, (int, float))]
+        if not starts:
+            continue
+        steps, cur = r.choice(nums if nums and r.random() < 0.8 else starts)
+        steps = list(steps)
+        ok = True
+        for _ in range(r.choice([0, 0, 1, 2])):
+            st = g.step(cur)
+            if st is None or st[0] in ('__getattr__', '__getitem__', '__call__'):
+                break
+            try:
+                cur = apply_op(st[0], cur, None if st[0] in UNARY else direct_arg(st[1], target))
+            except Exception:
+                ok = False
+                break
+            if too_big(cur):
+                ok = False
+                break
+            steps.append(st)
+        if not ok:
+            continue
+        fail = g.arith_fail(cur)
+        pos = len(steps) + len(fail) - 1
+        steps = steps + fail
+        q = r.random()
+        if q < 0.25:
+            steps.append(failing_nested_step(r, g))       # never reached
+        elif q < 0.5:
+            steps.append([r.choice(['__add__', '__truediv__', '__pow__']), lit(r.choice([1, 0, -1]))])
+        obs, _ = direct_obs({'T': steps}, dec(tj))
+        f = obs.get('fail')
+        if f and f['k'] == pos and f['kind'] in ARITH_KINDS:
+            return {'target': tj, 'expr': {'T': steps}}
+    return None
+
+
 def generate(rng, tier, scale, **focus):
     n = (1200 if tier == 'quick' else 30000) * scale
     maxlen = 6 if tier == 'quick' else 9
@@ -993,21 +1207,25 @@ def generate(rng, tier, scale, **focus):
         if clean and mode < 0.30:
             # one-edit mutation: the step at position k is replaced by a failing one …
             k = rng.randrange(len(steps) + 1)
-            bad = g.bad_step(vals[k])
-            steps = steps[:k] + [bad] + steps[k + 1:]
+            bad = as_steps(g.bad_step(vals[k]))
+            steps = steps[:k] + bad + steps[k + 1:]
             if rng.random() < 0.4:
                 # … and a later operation has a nested T argument that would fail too
-                j = rng.randint(k + 1, len(steps))
+                j = rng.randint(k + len(bad), len(steps))
                 steps = steps[:j] + [failing_nested_step(rng, g)] + steps[j:]
         elif clean and mode < 0.36 and steps:
             # an operation appended beyond the end of a valid chain
-            steps = steps + [g.bad_step(vals[-1])]
+            steps = steps + as_steps(g.bad_step(vals[-1]))
         elif clean and mode < 0.46:
             tw = twin_case(rng, tj, steps)
             if tw is not None:
                 yield tw
                 continue
         yield {'target': tj, 'expr': {'T': steps}}
+    for i in range(n // 5):
+        c = arith_failures(rng)
+        if c is not None:
+            yield c
     for i in range(n // 12):
         yield twin_templates(rng)
         if STATEFUL:
@@ -1015,6 +1233,7 @@ def generate(rng, tier, scale, **focus):
         yield reference_templates(rng)
     if tier == 'thorough' and not focus:
         yield from exhaustive()
+        yield from exhaustive_arith_errors()
         if STATEFUL:
             yield from exhaustive_stateful()
 
@@ -1034,6 +1253,26 @@ def exhaustive():
     for d in UNARY:
         for a in vals:
             yield {'target': enc(a), 'expr': {'T': [[d, lit(None)], [d, lit(None)]]}}
+
+
+def exhaustive_arith_errors():
+    """every binary operator x (int / bool / float / huge int / str / list left operand) x (zero of every
+    numeric type, negative int / float exponents, big exponents, huge ints, foreign types), with a
+    literal and with a nested-T right operand: every error class every operator raises on these types
+    (and the successful neighbours), the failing operation at positions 0 and 1"""
+    lefts = [0, False, True, 2, -3, 0.0, -0.0, 1.5, -2.0, 2.0, 10 ** 400, 'ab', 'a%', [1]]
+    rights = [0, False, 0.0, -0.0, -1, -2, -0.5, -1.0, 3, 1.5, 10000, 1e10, 10 ** 400, 10 ** 30, None, 'x']
+    for d in BIN:
+        for a in lefts:
+            for b in rights:
+                if d == '__pow__' and isinstance(a, int) and isinstance(b, int) and abs(a) >= 2 and b > 64:
+                    continue          # an exact int power with millions of digits
+                if d == '__mul__' and type(a) in (str, list) and isinstance(b, int) and 1000 < b < 2 ** 63:
+                    continue
+                yield {'target': enc(a), 'expr': {'T': [[d, lit(b)]]}}
+                yield {'target': enc({'x': a, 'y': b}),
+                       'expr': {'T': [['__getitem__', lit('x')], [d, {'T': [['__getitem__', lit('y')]]}],
+                                      ['__neg__', lit(None)]]}}
 
 
 def exhaustive_stateful():
@@ -1160,6 +1399,12 @@ def shrink(case):
         for i in range(len(t['d'])):
             c = dict(base)
             c['target'] = {'d': t['d'][:i] + t['d'][i + 1:]}
+            yield c
+    if isinstance(t, dict) and 'o' in t and t['o'][0] in ('Obj', 'Obj2'):
+        attrs = t['o'][1]
+        for i in range(len(attrs)):
+            c = dict(base)
+            c['target'] = {'o': [t['o'][0], attrs[:i] + attrs[i + 1:]]}
             yield c
 
 
